@@ -615,7 +615,8 @@ func c10WriteFault(ctx *core.Ctx) core.Result {
 		}
 		p.Srv.Close()
 		res.Sig(fmt.Sprintf("writefault|%d", off))
-		if len(res.Violations) > 1 {
+		ctx.Beat()
+		if len(res.Violations) > 0 {
 			break
 		}
 	}
@@ -712,7 +713,7 @@ func c10Unmount(ctx *core.Ctx, thorough bool) core.Result {
 		close(stop)
 		p.Srv.Close()
 		res.Sig(fmt.Sprintf("unmount|%d|%d", round%5, round%4))
-		if len(res.Violations) > 1 {
+		if len(res.Violations) > 0 {
 			break
 		}
 	}
@@ -911,7 +912,7 @@ func c10WriterBlocked(ctx *core.Ctx) core.Result {
 			p.Srv.Close()
 			c.Unmount()
 			res.Sig("writer-blocked|" + sig)
-			if len(res.Violations) > 1 {
+			if len(res.Violations) > 0 {
 				return res
 			}
 		}
